@@ -108,6 +108,8 @@ class Lin:
                 b = blocks[i][j]
                 if b is None:
                     continue
+                if hasattr(b, "toarray") and not isinstance(b, np.ndarray):
+                    b = b.toarray()  # a genuine (numeric) scipy sparse block
                 b = np.asarray(b, dtype=object)
                 if b.ndim == 1:
                     b = b.reshape(1, -1)
